@@ -190,6 +190,9 @@ def check(rep, an, tier):
                 "equal_l1norm_constraint": "equal_l1norm_constraint", "max_iter": "max_iter", "xtol": "xtol", "ftol": "ftol"})
     F.wrapper_returns_solution(rep, res, "ReceptorEstimator.fit_decomposition", {"lsq_linear_decomposition"}, ("X", "P", "B"))
     F.qty(rep, res, "ReceptorEstimator.fit_decomposition")
+    # … also when the registered weights are per sample (two-dimensional) and the targets are passed explicitly
+    res2 = an.run(f"{EST}.fit_decomposition", kws=kw, self_fields=estimator_fields(K="vec", baseline="vec", W="mat"), config="estimator, W per sample")
+    F.forwards(rep, res2, "ReceptorEstimator.fit_decomposition", {"lsq_linear_decomposition"}, {"W": "self.W", "A": "self.A", "B": "B"})
     rep.require("R-FLOW", 60)
     rep.require("R-TYPESTATE", 30)
     rep.require("R-SEED", 8)
